@@ -56,7 +56,12 @@ def hierarchy(draw):
         probes.append({"kind": "inst" if draw(st.integers(0, 9)) < 6 else "class", "cls": c, "m": m})
     c = cls[draw(st.integers(0, len(cls) - 1))]
     probes.append({"kind": "new", "cls": c, "k": draw(st.integers(0, 3))})
-    return {"mods": out_mods, "classes": out_cls, "probes": probes, "coll": coll, "wrap": draw(st.sampled_from([None, None, None, "Outer"]))}
+    inner = draw(st.integers(1, ncls)) if draw(st.integers(0, 3)) == 0 else 0
+    if coll and inner >= ncls:
+        # the colliding class stays at group level: `class Base` inside Inn next to a configured X::Base is C20/C27 ground
+        inner = ncls - 1
+    return {"mods": out_mods, "classes": out_cls, "probes": probes, "coll": coll, "wrap": draw(st.sampled_from([None, None, None, "Outer", "Outer::Deep"])),
+            "inner": inner}
 
 
 def render_and_model(case):
@@ -78,8 +83,16 @@ def render_and_model(case):
             imeth[m["name"]][name] = LIT[l][1]
             lines += [ind + "  def %s" % name, ind + "    %s" % LIT[l][0], ind + "  end"]
         lines.append(ind + "end")
-    for d in case["classes"]:
+    # the last `inner` classes live in a namespace of their own inside the group (module Inn) and name the classes and
+    # modules one level up without qualification
+    n_inner = min(case.get("inner") or 0, len(case["classes"]))
+    inner_names = {d["name"] for d in case["classes"][len(case["classes"]) - n_inner:]} if n_inner else set()
+    outer_ind = ind
+    for di, d in enumerate(case["classes"]):
         c = d["name"]
+        if n_inner and di == len(case["classes"]) - n_inner:
+            lines.append(ind + "module Inn")
+            ind += "  "
         parent[c], inc[c], ext[c] = d["parent"], d["inc"], d["ext"]
         imeth[c], cmeth[c], vis[c] = {}, {}, {}
         lines.append(ind + "class %s%s" % (c, (" < " + d["parent"]) if d["parent"] else ""))
@@ -121,6 +134,9 @@ def render_and_model(case):
                 vis[c][name] = "public"
                 lines += [ind + "  def %s" % name, ind + "    %s" % LIT[l][0], ind + "  end"]
             lines.append(ind + "end")
+    if n_inner:
+        ind = outer_ind
+        lines.append(ind + "end")
     if case.get("wrap"):
         for k in range(len(case["wrap"].split("::")) - 1, -1, -1):
             lines.append("  " * k + "end")
@@ -166,10 +182,13 @@ def render_and_model(case):
             k = parent.get(k)
         return None
     exp = []
+
+    def qual(c):
+        return q + ("Inn::" if c in inner_names else "") + c
     for d in case["classes"]:
         c = d["name"]
         n = init_arity(c)
-        lines.append("o_%s = %s%s.new(%s)" % (c.lower(), q, c, ", ".join(["1"] * (n or 0))))
+        lines.append("o_%s = %s.new(%s)" % (c.lower(), qual(c), ", ".join(["1"] * (n or 0))))
     for p in case["probes"]:
         c = p["cls"]
         row = len(lines) + 1
@@ -184,13 +203,13 @@ def render_and_model(case):
                 exp.append([row, "OK" if v == "public" else "ERR", t, "inst-" + v + ("-inherited" if owner != c else "")])
         elif p["kind"] == "class":
             r = find_c(c, p["m"])
-            lines.append("dbtp %s%s.%s" % (q, c, p["m"]))
+            lines.append("dbtp %s.%s" % (qual(c), p["m"]))
             exp.append([row, "ERR" if r is None else "OK", None if r is None else r[1], "class-undefined" if r is None else ("class-" + ("own" if r[0] == c else "inherited"))])
         else:
             n = init_arity(c)
             if n is None:
                 continue
-            lines.append("%s%s.new(%s)" % (q, c, ", ".join(["1"] * p["k"])))
+            lines.append("%s.new(%s)" % (qual(c), ", ".join(["1"] * p["k"])))
             exp.append([row, "OK" if p["k"] == n else "ERR", "-", "new-arity"])
     return "\n".join(lines) + "\n", exp
 
@@ -199,7 +218,7 @@ class Check(Prop):
     ID = "C16"
     RULE = ("cases = generated hierarchies: 1-4 classes (superclass chains up to depth 4), 0-2 modules included/extended, optional "
             "initialize (0-2 parameters), `def self.` or `class << self` class methods, private/protected sections, reopened classes, "
-            "optionally nested in a namespace module; one class name in 4 collides with the short name of a class configured in a foreign "
+            "optionally nested in one or two namespace modules, optionally with the last classes in an inner namespace of the group (module Inn) naming the rest without qualification; one class name in 4 collides with the short name of a class configured in a foreign "
             "frame (Base, Table, Relation, Error). Every generated method returns a literal of a distinct type, so the resolved method is "
             "observable through dbtp. Probes: instance calls, class calls, K.new arity. Oracle = Ruby method resolution model (class, "
             "included modules last first, superclass ...; singleton side: class methods, extended modules, superclass singleton; "
@@ -223,7 +242,7 @@ class Check(Prop):
     def evaluate(self, case, rt):
         src, exp = render_and_model(case)
         key = run.sha(src)
-        labels = ["collide" if case.get("coll") else "no-collision"] + (["namespaced"] if case.get("wrap") else [])
+        labels = ["collide" if case.get("coll") else "no-collision"] + (["namespaced"] if case.get("wrap") else []) + (["inner-namespace"] if case.get("inner") else [])
         try:
             recs = meta.analyse(rt, src, [])
         except meta.Discard as d:
